@@ -212,6 +212,21 @@ for _k in DC_SPECS:
 ALL_LEAVES = list(LEAF_TYPES)      # leaves the reference model knows
 DC_LEAVES = list(DC_SPECS)
 
+# leaves the model knows but which are not enumerated on their own: the tag literals and variant classes of the tagged unions
+LEAF_TYPES.update({'lit_v1': lambda: [t.Literal['v1']], 'lit_v2': lambda: [t.Literal['v2']], 'lit_1': lambda: [t.Literal[1]],
+                   'lit_2': lambda: [t.Literal[2]]})
+DC_SPECS.update({
+    'dc_v1': dict(name='V1', fields=[_f('x', 'lit_v1', ['value', "'v1'"]), _f('y', 'int', ['value', '1'])]),
+    'dc_v2': dict(name='V2', fields=[_f('x', 'lit_v2', ['value', "'v2'"]), _f('y', 'str', ['value', "'s'"])]),
+    'dc_i1': dict(name='I1', fields=[_f('x', 'lit_1', ['value', '1']), _f('y', 'int', ['value', '1'])]),
+    'dc_i2': dict(name='I2', fields=[_f('x', 'lit_2', ['value', '2']), _f('y', ['list', 'int'], ['factory', 'list'])]),
+})
+for _k in ('dc_v1', 'dc_v2', 'dc_i1', 'dc_i2'):
+    LEAF_TYPES[_k] = (lambda k=_k: [dc_class(k)])
+# tagged unions over them: (layout, {tag: variant leaf})
+TAGGED = {'tag_int': ('internal', {'v1': 'dc_v1', 'v2': 'dc_v2'}), 'tag_ext': ('external', {'v1': 'dc_v1', 'v2': 'dc_v2'}),
+          'tag_adj': ('adjacent', {'v1': 'dc_v1', 'v2': 'dc_v2'}), 'tag_num': ('adjacent', {1: 'dc_i1', 2: 'dc_i2'})}
+
 
 # ------------------------------------------------------------------ extra leaves (no reference model; used by the
 # model-free checks C03 C04 C07 C08 C09): tagged unions, HasConverter classes, pane.types helpers, numpy arrays
@@ -233,11 +248,8 @@ def _ext(name):
     from pane.converters import Converter
     from pane.errors import ParseInterrupt, WrongTypeError
     if not _EXT_CACHE:
-        def mk(nm, tagval, yty, ydef):
-            return pin(type(nm, (pane.PaneBase,), {'__annotations__': {'x': t.Literal[tagval], 'y': yty},
-                                                    'x': tagval, 'y': ydef, '__module__': 'mc.generated'}))
-        V1, V2 = mk('V1', 'v1', int, 1), mk('V2', 'v2', str, 's')
-        I1, I2 = mk('I1', 1, int, 1), mk('I2', 2, t.List[int], [])
+        # (the variants are ordinary fixture dataclasses of the reference model: dc_v1 ... dc_i2)
+        V1, V2, I1, I2 = dc_class('dc_v1'), dc_class('dc_v2'), dc_class('dc_i1'), dc_class('dc_i2')
         _EXT_CACHE['V1'], _EXT_CACHE['V2'] = V1, V2
         _EXT_CACHE['I1'], _EXT_CACHE['I2'] = I1, I2
         _EXT_CACHE['tag_int'] = pin(t.Annotated[t.Union[V1, V2], Tagged('x')])
@@ -582,6 +594,21 @@ def expressions_ext(tier: str) -> t.List[t.Any]:
         if _key(e) not in seen:
             seen.add(_key(e))
             out.append(e)
+    return out
+
+
+def tagged_expressions() -> t.List[t.Any]:
+    """The tagged unions (which have a reference model) alone, in containers, and as members of untagged unions - both orders."""
+    out: t.List[t.Any] = []
+    for tg in TAGGED:
+        out.append(tg)
+        out += [['list', tg], ['optional', tg], ['dict', 'str', tg], ['tuple', 'int', tg], ['struct', ['k', tg]], ['tuplevar', tg]]
+        for other in ('none', 'int', ['dict', 'str', 'int'], ['dict', 'str', 'any'], 'dc_defaults', ['list', 'int']):
+            out.append(['union', tg, other])
+            out.append(['union', other, tg])
+        out.append(['list', ['union', tg, ['dict', 'str', 'int']]])
+    out.append(['union', 'tag_int', 'tag_ext'])
+    out.append(['union', 'tag_adj', 'tag_int'])
     return out
 
 
